@@ -259,3 +259,22 @@ package decoders
 //@ props C14 C08
 //@ at call d.protoDecoder.LoadAmmo assert [the-caller-s-context-and-the-format-s-own-scan] arg(ctx) == ctx0 && arg(scan) == d.Scan
 //@ ensures [what-the-shared-loader-read] result0 == result_of(d.protoDecoder.LoadAmmo, 0) && result1 == result_of(d.protoDecoder.LoadAmmo, 1)
+
+// Where the reader stands in the file (for error messages); a failing Seek gives whatever Seek returned.
+//@ func filePosition
+//@ props C13
+//@ requires file != nil
+//@ modifies nothing
+//@ ensures position == result_of(file.Seek, 0)
+//@ at call file.Seek assert [asks-without-moving] arg(offset) == 0 && arg(whence) == io.SeekCurrent
+
+// Is the file one JSON array (rather than a JSON value per line)? Anything that does not start with a JSON delimiter is an
+// error, never a fault; the file is rewound whatever the answer.
+//@ func isArray
+//@ props C13 C07
+//@ nilsafe
+//@ requires r != nil
+//@ ensures [a-token-error-is-returned] imp(result_of(d.Token, 1) != nil, result1 == result_of(d.Token, 1) && !result0)
+//@ ensures [not-a-delimiter-is-an-error] imp(result_of(d.Token, 1) == nil && !typeis(result_of(d.Token, 0), json.Delim), result1 != nil && !result0)
+//@ ensures [rewound] imp(result_of(d.Token, 1) == nil && typeis(result_of(d.Token, 0), json.Delim), calls(r.Seek) == 1 && result1 == result_of(r.Seek, 1))
+//@ at call r.Seek assert [to-the-start] arg(offset) == 0 && arg(whence) == io.SeekStart
